@@ -161,6 +161,8 @@ pub struct World {
     pub term_checked: bool,
     pub disc_wire_idx: Option<usize>,
     pub inbound_seq: usize,
+    /// topic aliases the broker has established on the current connection
+    pub aliases: BTreeSet<u16>,
     pub pubrel_seq: usize,
     unsettled_completion: bool,
     unsettled_submissions: Vec<usize>,
@@ -192,6 +194,8 @@ pub struct World {
     pub size_mix: bool,
     /// every third publish carries a content type and a user property of boundary sizes (see `rich_options`)
     pub rich_pubs: bool,
+    /// every fourth publish has a topic with multi-byte UTF-8 characters
+    pub utf8_topics: bool,
     /// every fifth inbound PUBLISH carries the full set of forwardable properties
     pub rich_inbound: bool,
     /// which publishes (request index modulo 3) carry them
@@ -207,6 +211,8 @@ pub struct World {
 #[derive(Default, Clone, Debug)]
 pub struct Counters {
     pub sized_inbound: u64,
+    pub utf8_topic_pubs: u64,
+    pub alias_only_inbound: u64,
     pub rich_inbound: u64,
     pub resent_with_options: u64,
     pub pubs_set_twice: u64,
@@ -287,7 +293,7 @@ impl World {
         // authorize() instead of connect(): whatever the CONNACK announces must be in force all the same
         let via_auth = cfg.via_auth.unwrap_or(cfg.seed % 4 == 3);
         if via_auth {
-            let conn = ConnSpec { sei: cfg.sei, client_id: Some("c".into()), auth_method: Some("m".into()), auth_data: Some(vec![1]), ..Default::default() };
+            let conn = ConnSpec { sei: cfg.sei, client_id: Some("c".into()), topic_alias_maximum: Some(8), auth_method: Some("m".into()), auth_data: Some(vec![1]), ..Default::default() };
             sim.cmd(Cmd::Connect(conn));
             sim.settle();
             sim.feed_packet(&SPacket::Auth { reason: Some(0x18), props: vec![Prop::str(21, "m"), Prop::bin(22, b"c")] });
@@ -295,7 +301,7 @@ impl World {
             sim.cmd(Cmd::Authorize(AuthSpec { reason: Some(0x18), method: Some("m".into()), data: Some(vec![2]), user_props: vec![] }));
             sim.settle();
         } else {
-            let conn = ConnSpec { sei: cfg.sei, client_id: Some("c".into()), ..Default::default() };
+            let conn = ConnSpec { sei: cfg.sei, client_id: Some("c".into()), topic_alias_maximum: Some(8), ..Default::default() };
             sim.cmd(Cmd::Connect(conn));
             sim.settle();
         }
@@ -334,6 +340,7 @@ impl World {
             term_checked: false,
             disc_wire_idx: None,
             inbound_seq: 0,
+            aliases: BTreeSet::new(),
             pubrel_seq: 0,
             unsettled_completion: false,
             unsettled_submissions: Vec::new(),
@@ -355,6 +362,7 @@ impl World {
             reconnects: 0,
             size_mix: false,
             rich_pubs: false,
+            utf8_topics: true,
             rich_inbound: true,
             rich_phase: 2,
             multi_filter: false,
@@ -399,7 +407,7 @@ impl World {
                     Kind::Pub1 => 1,
                     _ => 2,
                 };
-                let mut sp = PubSpec::simple(q, &format!("o/{idx}"), &self.plain_payload(idx));
+                let mut sp = PubSpec::simple(q, &self.pub_topic(idx), &self.plain_payload(idx));
                 if self.rich_pubs && idx % 3 == self.rich_phase {
                     // rarely used options whose encoded size crosses the 1-/2-byte property-length boundary
                     let (ct, up) = Self::rich_options(idx);
@@ -455,6 +463,16 @@ impl World {
             v
         } else {
             format!("p{idx}").into_bytes()
+        }
+    }
+
+    /// Topic of the `idx`-th request if it is a publish: "o/<idx>", every fourth one followed by levels made of two-, three-
+    /// and four-byte UTF-8 characters (lengths on the wire count bytes, not characters).
+    pub fn pub_topic(&self, idx: usize) -> String {
+        if self.utf8_topics && idx % 4 == 3 {
+            format!("o/{idx}/s\u{e9}jour/\u{b0}C/\u{65e5}\u{672c}/\u{1f600}")
+        } else {
+            format!("o/{idx}")
         }
     }
 
@@ -529,6 +547,9 @@ impl World {
         let idx = self.sim.ops.len();
         let spec = self.spec_for(kind, idx);
         if let OpSpec::Publish(p) = &spec {
+            if p.topic.as_ref().map_or(false, |t| !t.is_ascii()) {
+                self.counters.utf8_topic_pubs += 1;
+            }
             if p.set_twice() {
                 self.counters.pubs_set_twice += 1;
             }
@@ -789,7 +810,8 @@ impl World {
         for s in subids {
             props.push(Prop::var(11, *s));
         }
-        let topic = format!("i/{k}");
+        let mut topic = format!("i/{k}");
+        let mut topic_alias = None;
         let mut payload = format!("m{k}").into_bytes();
         if let Some(sz) = size {
             payload.resize(sz, b'.');
@@ -810,7 +832,21 @@ impl World {
             response_topic = Some(format!("r/{k}"));
             content_type = Some(format!("ct/{}", "x".repeat(k % 140)));
             user_props = vec![("a".to_string(), format!("1-{k}")), ("a".to_string(), "2".to_string()), (String::new(), String::new())];
+            // the client's CONNECT allows 8 topic aliases: every other such message establishes one (topic + alias), the ones in
+            // between use an alias established on this connection in place of the topic (zero-length Topic Name)
+            let alias = 1 + ((k / 10) % 8) as u16;
+            if (k / 5) % 2 == 1 && self.aliases.contains(&alias) {
+                topic = String::new();
+                topic_alias = Some(alias);
+                self.counters.alias_only_inbound += 1;
+            } else if (k / 5) % 2 == 0 {
+                topic_alias = Some(alias);
+                self.aliases.insert(alias);
+            }
             let mut all = vec![Prop::pair("a", &format!("1-{k}")), Prop::str(3, content_type.as_ref().unwrap())];
+            if let Some(a) = topic_alias {
+                all.push(Prop::u16(35, a));
+            }
             all.append(&mut props);
             all.push(Prop::bin(9, correlation.as_ref().unwrap()));
             all.push(Prop::pair("a", "2"));
@@ -821,7 +857,7 @@ impl World {
             props = all;
         }
         let p = rc::Publish { dup, qos, retain, topic: topic.clone(), id: if qos > 0 { Some(id) } else { None }, props, payload: payload.clone() };
-        let item = MsgSum { dup, retain, qos, topic, pfi, topic_alias: None, mei, correlation, response_topic, content_type, payload, user_props };
+        let item = MsgSum { dup, retain, qos, topic, pfi, topic_alias, mei, correlation, response_topic, content_type, payload, user_props };
         let redelivery = qos == 2 && self.inbound_qos2.contains(&id);
         if redelivery {
             self.counters.redeliveries += 1;
@@ -1048,6 +1084,7 @@ impl World {
         let ResumeOpts { secs_ago, sei, connack_sei, expect_expired, .. } = o;
         let (mut pubs, mut rels) = self.unfinished();
         self.reconnects += 1;
+        self.aliases.clear();
         self.expected_acks.clear();
         if o.plain {
             // without a recorded disconnection nothing is re-sent and nothing is reset
@@ -1060,7 +1097,7 @@ impl World {
         self.sim.note(|| format!("hook H1: disconnected {secs_ago} s ago; session expiry interval {:?}; new CONNACK receive maximum {:?}, maximum packet size {:?}", sei, o.receive_max, o.max_packet));
         self.sim.new_transport();
         if o.via_auth {
-            let conn = ConnSpec { sei, client_id: Some("c".into()), auth_method: Some("m".into()), auth_data: Some(vec![1]), ..Default::default() };
+            let conn = ConnSpec { sei, client_id: Some("c".into()), topic_alias_maximum: Some(8), auth_method: Some("m".into()), auth_data: Some(vec![1]), ..Default::default() };
             self.sim.cmd(Cmd::Connect(conn));
             self.sim.settle();
             self.sim.feed_packet(&SPacket::Auth { reason: Some(0x18), props: vec![Prop::str(21, "m"), Prop::bin(22, b"c")] });
@@ -1068,7 +1105,7 @@ impl World {
             self.sim.cmd(Cmd::Authorize(AuthSpec { reason: Some(0x18), method: Some("m".into()), data: Some(vec![2]), user_props: vec![] }));
             self.sim.settle();
         } else {
-            let conn = ConnSpec { sei, client_id: Some("c".into()), ..Default::default() };
+            let conn = ConnSpec { sei, client_id: Some("c".into()), topic_alias_maximum: Some(8), ..Default::default() };
             self.sim.cmd(Cmd::Connect(conn));
             self.sim.settle();
         }
@@ -1184,7 +1221,7 @@ impl World {
                     self.viol(&["C17"], "C17/resent-packet-malformed".into(), format!("re-sent packet rejected by the reference decoder: {e}; bytes {:02x?}", &wp.bytes[..wp.bytes.len().min(48)]));
                 }
                 Ok(CPacket::Publish(p)) => {
-                    let op = p.topic.strip_prefix("o/").and_then(|s| s.parse::<usize>().ok());
+                    let op = p.topic.strip_prefix("o/").and_then(|s| s.split('/').next()).and_then(|s| s.parse::<usize>().ok());
                     match want_pubs.front().copied() {
                         Some(i) if Some(i) == op => {
                             want_pubs.pop_front();
@@ -1197,7 +1234,7 @@ impl World {
                             if self.want_pub_retain(i) {
                                 self.counters.resent_with_options += 1;
                             }
-                            if p.id != self.m[i].pkt_id || p.qos != want_q || p.payload != self.plain_payload(i) || p.retain != self.want_pub_retain(i) || got_props != self.want_pub_props(i) {
+                            if p.id != self.m[i].pkt_id || p.qos != want_q || p.payload != self.plain_payload(i) || p.retain != self.want_pub_retain(i) || got_props != self.want_pub_props(i) || p.topic != self.pub_topic(i) {
                                 self.viol(&["C17"], "C17/resent-publish-differs".into(), format!("op{i}: re-sent {} differs from the original (id {:?}, qos {want_q})", CPacket::Publish(p.clone()).brief(), self.m[i].pkt_id));
                             }
                             self.m[i].req_wire = Some(widx);
@@ -1325,7 +1362,7 @@ impl World {
             };
             match pkt {
                 CPacket::Publish(p) => {
-                    let op = p.topic.strip_prefix("o/").and_then(|s| s.parse::<usize>().ok());
+                    let op = p.topic.strip_prefix("o/").and_then(|s| s.split('/').next()).and_then(|s| s.parse::<usize>().ok());
                     let Some(i) = op.filter(|i| *i < self.m.len() && matches!(self.m[*i].kind, Kind::Pub0 | Kind::Pub1 | Kind::Pub2 | Kind::PubBig)) else {
                         self.viol(P_C06_01, "C01/unattributable-packet/PUBLISH".into(), format!("PUBLISH on the wire that no publish() asked for: {}", CPacket::Publish(p.clone()).brief()));
                         continue;
@@ -1350,7 +1387,7 @@ impl World {
                     let want_props = self.want_pub_props(i);
                     let mut got_props = p.props.clone();
                     got_props.sort_by_key(|x| (x.id != 3, format!("{:?}", x)));
-                    if p.qos != want_q || p.retain != self.want_pub_retain(i) || p.payload != want_payload || got_props != want_props {
+                    if p.qos != want_q || p.retain != self.want_pub_retain(i) || p.payload != want_payload || got_props != want_props || (self.m[i].kind != Kind::PubBig && p.topic != self.pub_topic(i)) {
                         self.viol(
                             P_C06_01,
                             format!("C06/publish-fields-differ/qos={want_q}"),
